@@ -393,6 +393,12 @@ func StructFieldsAsArgumentsAction(explicitFields ...string) RewriteAction {
 		if firstValue.Argument == nil || firstValue.Argument.Name != option.Args[0].Name || len(assignmentPathPrefix) == 0 {
 			return []ast.Option{option}
 		}
+		// the argument goes away: nothing else the option does can still refer to it
+		for _, assignment := range oldAssignments[1:] {
+			if countArgumentUses(assignment.Value, option.Args[0].Name) != 0 {
+				return []ast.Option{option}
+			}
+		}
 		targetType := assignmentPathPrefix.Last().Type
 		argType := option.Args[0].Type
 		if targetType.IsArray() && !argType.IsArray() {
@@ -882,7 +888,16 @@ func UnfoldBooleanAction(unfoldOpts BooleanUnfold) RewriteAction {
 			return []ast.Option{option}
 		}
 
-		// the boolean argument goes away; the other ones (the key of a map, …) are still used by the path
+		// the boolean argument goes away: nothing else the option does can still refer to it
+		if value := option.Assignments[0].Value.Argument; value != nil {
+			for _, assignment := range option.Assignments[1:] {
+				if countArgumentUses(assignment.Value, value.Name) != 0 {
+					return []ast.Option{option}
+				}
+			}
+		}
+
+		// the other arguments (the key of a map, …) are still used by the path
 		var remainingArgs []ast.Argument
 		for _, arg := range option.Args {
 			if value := option.Assignments[0].Value.Argument; value != nil && value.Name == arg.Name {
